@@ -910,6 +910,39 @@ pub fn generate(seed: u64, thorough: bool, emit: &mut dyn FnMut(String)) {
             emit(format!("enum {maxlen} {}", words(&[a.clone(), b.clone()])));
         }
     }
+    // longer token sequences than the exhaustive space reaches (6..9 tokens), biased towards the tokens whose
+    // printed forms can run into each other: literals, `*`, `^`, `!`, juxtaposition
+    let stress: Vec<Token> = vec![
+        Token::Number(2.0), Token::Number(3.0), Token::Number(2.5), Token::Number(0.0), Token::Number(1.0),
+        Token::Variable("x".into()), Token::Variable("y".into()), Token::Constant(Constants::Pi),
+        Token::Operator(Operators::Mul), Token::Operator(Operators::Mul), Token::Operator(Operators::Caret),
+        Token::Operator(Operators::Caret), Token::Operator(Operators::Fac), Token::Operator(Operators::Sub),
+        Token::Operator(Operators::Div), Token::Operator(Operators::Add), Token::LParen, Token::RParen,
+        Token::Function(Functions::Sin),
+    ];
+    let k = if thorough { 400_000 } else { 30_000 };
+    for _ in 0..k {
+        let len = 6 + rng.below(4) as usize;
+        let mut ts: Vec<Token> = Vec::with_capacity(len);
+        for j in 0..len {
+            // start with something that can start an expression most of the time
+            let t = loop {
+                let t = rng.pick(&stress).clone();
+                let starts = matches!(t, Token::Number(_) | Token::Variable(_) | Token::Constant(_) | Token::LParen | Token::Function(_) | Token::Operator(Operators::Sub));
+                let prev_operand = j > 0 && matches!(ts[j - 1], Token::Number(_) | Token::Variable(_) | Token::Constant(_) | Token::RParen | Token::Operator(Operators::Fac));
+                // after an operand prefer an operator, after an operator prefer an operand (3 times out of 4)
+                if j == 0 && !starts {
+                    continue;
+                }
+                if j > 0 && rng.chance(3, 4) && prev_operand == starts && !matches!(t, Token::Operator(Operators::Fac)) {
+                    continue;
+                }
+                break t;
+            };
+            ts.push(t);
+        }
+        emit(format!("toks {}", words(&ts)));
+    }
     // random conventional expressions, minimal and redundant parentheses
     let n = if thorough { 100_000 } else { 4000 };
     for i in 0..n {
